@@ -13,7 +13,6 @@ import (
 	"github.com/google/uuid"
 	"github.com/internetarchive/Zeno/internal/pkg/archiver"
 	"github.com/internetarchive/Zeno/internal/pkg/config"
-	"github.com/internetarchive/Zeno/internal/pkg/controler"
 	"github.com/internetarchive/Zeno/internal/pkg/reactor"
 	"github.com/internetarchive/Zeno/internal/verif/vc"
 	"github.com/internetarchive/Zeno/pkg/models"
@@ -153,7 +152,7 @@ func c16Child(scPath string) int {
 		return 2
 	}
 	pr.installHooks(false)
-	controler.Start()
+	pr.start(false)
 	res := map[string]any{}
 	v1 := pr.waitQuiescent(7*time.Second, 14*time.Second, 200*time.Second)
 	f1 := takeFootprint()
